@@ -96,8 +96,8 @@ class FairLockImpl:
             waiters = list(self.lock._waiters or ())
             out["waiters"] = tuple(ev.owner for ev in waiters)
             out["evset"] = frozenset(ev.owner for ev in waiters if ev.is_set())
-        else:
-            out["evset"] = frozenset(ev.owner for ev in self.backend.events if ev.is_set() and self.pc.get(ev.owner) == "waiting")
+        # (without the queue, which of the set events still count as a wake-up in flight cannot be told from outside: behaviour only -
+        #  who holds the lock, in which order it was obtained, who is suspended)
         return out
 
     def close(self) -> None:
